@@ -140,19 +140,26 @@ func (w *c03World) del(sess *paths.Session, key string) {
 // location says where the newest primary copy of a key lives right now.
 func (w *c03World) location(key string) string {
 	owner := w.c.OwnerOf(w.dmap, key)
-	onOwner, onPrev := false, false
+	onOwner, onPrev, onOlder := false, false, false
+	// the owner list is [oldest previous owner, ..., current owner]
+	chain := w.c.Live()[0].V.Primary.PartitionByID(w.c.PartOf(w.dmap, key)).Owners()
 	for _, m := range w.c.Live() {
 		if _, ok := m.V.DMap.VerifEntry(partitions.PRIMARY, w.dmap, key); ok {
 			if m == owner {
 				onOwner = true
 			} else {
 				onPrev = true
+				if len(chain) >= 3 && chain[len(chain)-2].ID != m.V.RT.This().ID {
+					onOlder = true
+				}
 			}
 		}
 	}
 	switch {
 	case onOwner && onPrev:
 		return "owner+previous-owner"
+	case onOlder:
+		return "older-previous-owner"
 	case onPrev:
 		return "previous-owner"
 	case onOwner:
@@ -251,7 +258,7 @@ func (w *c03World) slotOps(sess *paths.Session, slot string) {
 		w.put(sess, fmt.Sprintf("new-%d", w.counter))
 	}
 	// overwrite old keys, delete keys by location
-	over, delPrev, delOwner := 0, 0, 0
+	over, delPrev, delOwner, delOlder := 0, 0, 0, 0
 	for _, k := range keys {
 		if w.failed {
 			return
@@ -261,6 +268,9 @@ func (w *c03World) slotOps(sess *paths.Session, slot string) {
 		case over < 4:
 			w.put(sess, k)
 			over++
+		case loc == "older-previous-owner" && delOlder < 4:
+			w.del(sess, k)
+			delOlder++
 		case loc == "previous-owner" && delPrev < 3:
 			w.del(sess, k)
 			delPrev++
@@ -539,6 +549,53 @@ func c03Child(ctx *runCtx, spec string) {
 				// "after joins every live key is stored exactly once as a primary copy and keeps its backup copies"
 				w.census(false)
 			}
+		case "join-janitor":
+			// one join; before the first table of some partition arrives, the new owner's (empty) fragment of that
+			// partition is busy with a Delete, its janitor queues on the fragment and the table arrives behind the janitor
+			joined, err := c.AddMember()
+			if err != nil {
+				ctx.rep.Inconclusive(spec + ": join: " + err.Error())
+				return
+			}
+			if err := c.WaitStable(30 * time.Second); err != nil {
+				ctx.rep.Inconclusive(spec + ": " + err.Error())
+				return
+			}
+			ctx.rep.Count("joins", 1)
+			c03JanitorRace(w, sess, joined)
+			w.handOver(sess, tag)
+			if !lossSoFar {
+				w.census(false)
+			}
+		case "join2":
+			// two joins in quick succession: the second member joins while the hand-over to the first one has only
+			// begun, so that partitions get a chain of two previous owners that both hold data
+			if _, err := c.AddMember(); err != nil {
+				ctx.rep.Inconclusive(spec + ": join: " + err.Error())
+				return
+			}
+			if err := c.WaitStable(30 * time.Second); err != nil {
+				ctx.rep.Inconclusive(spec + ": " + err.Error())
+				return
+			}
+			ctx.rep.Count("joins", 1)
+			w.slotOps(sess, "after-push-before-move#"+tag+"a")
+			w.balancePass()
+			w.slotOps(sess, "between-table-moves#"+tag+"a/0")
+			if _, err := c.AddMember(); err != nil {
+				ctx.rep.Inconclusive(spec + ": join: " + err.Error())
+				return
+			}
+			if err := c.WaitStable(30 * time.Second); err != nil {
+				ctx.rep.Inconclusive(spec + ": " + err.Error())
+				return
+			}
+			ctx.rep.Count("joins", 1)
+			ctx.rep.Count("joins_before_the_previous_hand-over_finished", 1)
+			w.handOver(sess, tag+"b")
+			if !lossSoFar {
+				w.census(false)
+			}
 		case "leave", "leave-coordinator":
 			lossSoFar = true
 			// leaves only once every asserted key has its backups: the previous hand-over ended with a census-like state
@@ -585,6 +642,75 @@ func c03Child(ctx *runCtx, spec string) {
 	if cs.Seed%3 == 0 {
 		ctx.rep.Sample(map[string]interface{}{"case": spec, "live_keys": len(w.model), "deleted_keys": len(w.deleted)})
 	}
+}
+
+// c03JanitorRace: see the "join-janitor" step.
+func c03JanitorRace(w *c03World, sess *paths.Session, joined *cluster.Member) {
+	var keys []string
+	for k := range w.model {
+		keys = append(keys, k)
+	}
+	sort.Strings(keys)
+	done := map[uint64]bool{}
+	races := 0
+	for _, k := range keys {
+		if races >= 3 || w.failed {
+			break
+		}
+		p := w.c.PartOf(w.dmap, k)
+		if done[p] || w.c.OwnerOf(w.dmap, k) != joined || w.location(k) != "previous-owner" {
+			continue
+		}
+		if ents, ok := joined.V.DMap.VerifEntries(partitions.PRIMARY, p, w.dmap); ok && len(ents) != 0 {
+			continue
+		}
+		done[p] = true
+		races++
+		reached, release := make(chan struct{}), make(chan struct{})
+		var once sync.Once
+		verifhook.Set(joined.Name, "del.local", func(member, name string) {
+			fire := false
+			once.Do(func() { fire = true })
+			if fire {
+				close(reached)
+				<-release
+			}
+		})
+		delDone := make(chan struct{})
+		go func() {
+			defer close(delDone)
+			w.slot = "after-push-before-move#janitor-race"
+			if _, err := sess.ViaMember("E", joined).Delete(context.Background(), k); err != nil {
+				w.violate("delete-failed|slot=after-push-before-move", fmt.Sprintf("Delete(%s) failed: %v", k, err), nil)
+			}
+		}()
+		select {
+		case <-reached:
+		case <-delDone:
+			verifhook.Set(joined.Name, "del.local", nil)
+			w.ctx.rep.Inconclusive(w.spec + ": janitor race: the Delete did not reach the hook")
+			continue
+		}
+		delete(w.model, k)
+		w.deleted[k] = true
+		var bg sync.WaitGroup
+		bg.Add(1)
+		go func() { defer bg.Done(); joined.V.DMap.VerifJanitorOnce() }()
+		time.Sleep(100 * time.Millisecond)
+		for _, m := range w.c.Live() {
+			if m != joined {
+				bg.Add(1)
+				go func(m *cluster.Member) { defer bg.Done(); m.V.Balancer.BalanceEagerly() }(m)
+			}
+		}
+		time.Sleep(200 * time.Millisecond)
+		close(release)
+		<-delDone
+		bg.Wait()
+		verifhook.Set(joined.Name, "del.local", nil)
+		w.ctx.rep.Count("table_moves_queued_behind_the_janitor_on_an_empty_fragment", 1)
+	}
+	w.checkReads(sess, 0)
 }
 
 // c03CrashJoin performs the last join of a case with a crash of the sender or the receiver in the middle of a fragment move.
@@ -698,6 +824,10 @@ func c03Cases(tier string, seed int64) []c03Case {
 		add(c03Case{N0: 2, Steps: "join,leave", R: 2, TS: 512})
 		add(c03Case{N0: 2, Steps: "join,leave-coordinator", R: 2, TS: 1024})
 		add(c03Case{N0: 3, Steps: "join", R: 3, TS: 512, P: 13})
+		add(c03Case{N0: 1, Steps: "join2", R: 1, TS: 512, P: 23})
+		add(c03Case{N0: 2, Steps: "join2", R: 2, TS: 512, P: 23})
+		add(c03Case{N0: 1, Steps: "join-janitor", R: 1, TS: 512})
+		add(c03Case{N0: 2, Steps: "join-janitor", R: 2, TS: 512})
 		add(c03Case{N0: 2, Steps: "join", R: 2, TS: 512, Crash: "sender:move.after-send"})
 		add(c03Case{N0: 2, Steps: "join", R: 2, TS: 512, Crash: "sender:move.before-drop"})
 		add(c03Case{N0: 2, Steps: "join", R: 2, TS: 512, Crash: "receiver:merge.entry"})
@@ -708,6 +838,10 @@ func c03Cases(tier string, seed int64) []c03Case {
 			add(c03Case{N0: 1, Steps: "join,join", R: r, TS: ts})
 			add(c03Case{N0: 2, Steps: "join,join", R: r, TS: ts})
 			add(c03Case{N0: 3, Steps: "join", R: r, TS: ts, P: 23})
+			add(c03Case{N0: 1, Steps: "join2", R: r, TS: ts, P: 23})
+			add(c03Case{N0: 1, Steps: "join-janitor,join-janitor", R: r, TS: ts})
+			add(c03Case{N0: 3, Steps: "join-janitor", R: r, TS: ts, P: 13})
+			add(c03Case{N0: 2, Steps: "join2,join", R: r, TS: ts, P: 31})
 			if r == 2 {
 				add(c03Case{N0: 2, Steps: "join,leave", R: r, TS: ts})
 				add(c03Case{N0: 2, Steps: "join,leave-coordinator", R: r, TS: ts})
